@@ -1224,6 +1224,52 @@ func subPaths(rng *vh.Rng, quorum []sharing.ID, maxSub, nested int) [][][]sharin
 	return out
 }
 
+// mixedIDs draws n distinct IDs mixing ordinals, sparse values, values around 2^32 and
+// 2^40..2^64-1, in shuffled order.
+func mixedIDs(rng *vh.Rng, n int) []sharing.ID {
+	var out []sharing.ID
+	add := func(x sharing.ID) {
+		if x != 0 && !contains(out, x) && len(out) < n {
+			out = append(out, x)
+		}
+	}
+	add(sharing.ID(^uint64(0)))
+	add(1)
+	for len(out) < n {
+		switch rng.Intn(4) {
+		case 0:
+			add(sharing.ID(1 + rng.Intn(64)))
+		case 1:
+			add(sharing.ID(rng.Intn(100000)))
+		case 2:
+			add(sharing.ID(1<<32 - 8 + uint64(rng.Intn(16))))
+		default:
+			add(sharing.ID(1<<40 + rng.Uint64()>>uint(rng.Intn(24))))
+		}
+	}
+	return shuffle(rng, out)
+}
+
+// sampledSubPaths: a handful of sub-quorums of a large quorum (pairs, a triple, about half,
+// all but one, the whole quorum), two nested chains and the refused ones.
+func sampledSubPaths(rng *vh.Rng, quorum []sharing.ID) [][][]sharing.ID {
+	n := len(quorum)
+	pick := func(from []sharing.ID, size int) []sharing.ID { return shuffle(rng, from)[:size] }
+	var out [][][]sharing.ID
+	out = append(out, [][]sharing.ID{pick(quorum, 2)}, [][]sharing.ID{pick(quorum, 2)}, [][]sharing.ID{pick(quorum, 3)},
+		[][]sharing.ID{pick(quorum, n/2)}, [][]sharing.ID{pick(quorum, n-1)}, [][]sharing.ID{shuffle(rng, quorum)})
+	outer := pick(quorum, n-2)
+	mid := pick(outer, len(outer)/2+1)
+	out = append(out, [][]sharing.ID{outer, mid}, [][]sharing.ID{outer, mid, pick(mid, 2)})
+	out = append(out, [][]sharing.ID{{quorum[0]}})
+	foreign := quorum[0] + 1
+	for contains(quorum, foreign) || foreign == 0 {
+		foreign++
+	}
+	out = append(out, [][]sharing.ID{{quorum[0], quorum[1], foreign}})
+	return out
+}
+
 func contains(ids []sharing.ID, x sharing.ID) bool {
 	for _, y := range ids {
 		if x == y {
@@ -1332,6 +1378,11 @@ func main() {
 				qs = subsets(pool, 2, maxN)
 			}
 			for qi, q := range qs {
+				// quick tier: the second and third pool contribute two thirds of their quorums
+				// (the CPU goes to the large quorums below instead)
+				if a.Tier != "thorough" && pi > 0 && qi%3 == 1 {
+					continue
+				}
 				// quick tier: the full sub-quorum sweep for every quorum of the first
 				// pool and every third quorum of the others
 				full := pi == 0 || qi%3 == 0 || a.Tier == "thorough"
@@ -1352,6 +1403,20 @@ func main() {
 				}
 			}
 		}
+		// large quorums (the property quantifies over every quorum size; buffer-capacity and
+		// map-growth effects only show with many parties): honest runs with mixed IDs, a
+		// sample of sub-quorums each, the full predicates and the byte-level tie
+		largeSizes := []int{7, 8, 9, 10, 12, 16, 24, 33}
+		if a.Tier == "thorough" {
+			largeSizes = []int{7, 8, 9, 10, 11, 12, 13, 14, 15, 16, 17, 20, 24, 28, 32, 33, 36, 40}
+		}
+		for li, size := range largeSizes {
+			q := mixedIDs(rng, size)
+			k := &kase{id: fmt.Sprintf("L%d", size), seed: a.Seed*1000 + 700000 + int64(li), quorum: q}
+			k.subs = sampledSubPaths(rng, q)
+			cases = append(cases, k)
+		}
+
 		// tamper cases
 		for i := 0; i < nTamper; i++ {
 			pool := pools[i%len(pools)]
